@@ -5,6 +5,16 @@ ROOT = os.path.dirname(os.path.dirname(os.path.abspath(__file__)))
 PROPS = [json.loads(l)["id"] for l in open(os.path.join(ROOT, "properties.jsonl"))]
 
 CLAIMED = {
+ "C09": dict(
+   text="Coq theorems (Props/C09.v, 12 theorems over R) about the Gallina model of FXRates::try_new / rate (currency index = base first then quote order, i16 edge counts with the code's stop test, seed matrix, the triangulation mut_arrays_remaining_elements as fuelled recursion with the code's node choice — last maximum among unvisited — combinations(2) order and prev/visited handling): quote sets that connect 2..181 currencies as a tree are accepted, never abort, yield all n^2 non-zero rates; every cross equals the product of quotes along ANY walk between the two currencies, inverted when travelled backwards; quoted pairs are returned as quoted, a currency against itself is 1, rate x inverse = 1, independence of quote order and of base; wrong count, mixed settlement dates, disconnected, cyclic, duplicated or inverse-duplicated inputs are errors (accepted => tree, by a leaf-removal argument), never Ok, never abort; the triangulation preserves 'entry = v_i / v_j' for any potential, fuel and visited set; the chosen fuel is never exhausted (termination with progress via simplicial vertices). Tied to rust/fx/rates on every run by a seeded differential run (Pruefer-sequence trees on 2-12 currencies, malformed stream) plus a model-independent oracle on the real code.",
+   note="Theorems over R; IEEE rounding and powf(x,-1) are outside (rates compared at 1e-9; quoted pairs bit-exactly on the real code). The bound of 181 currencies is the code's own i16 limit (the property quantifies over 2..12).",
+   tech="Coq proof (entry-wise invariant of the fuelled triangulation, abelian-group potentials, graph arguments: simplicial vertices for completeness, leaf removal for rejection) + seeded model-vs-code correspondence",
+   ref="DESIGN.md §4 C09"),
+ "C10": dict(
+   text="Coq theorems (Props/C10.v, 17 theorems) over the same model instantiated at Dual / Dual2 through Model/Number.v and the state machine update / set_ad_order: for every valid market the first-order coefficient of any cross for ANY variable name is value x sum over the walk of +-(coefficient of the lifted quote)/(quote value) — so a plain quote for pair xxxyyy on the path contributes +-cross/quote under the name fx_xxxyyy, zero off the path, and dual-valued quotes keep their own names; second-order coefficients are the matching second derivatives (2-jets); values are identical at orders 0/1/2; after ANY sequence of updates, order switches and refused updates the state satisfies the invariant, keeps its currency index and returns the values of the market built directly from the latest quotes; updates naming unknown pairs are refused and change nothing; no step aborts. Tied to rust/fx/rates by seeded histories (0-12 operations) compared after every step incl. gradient1/gradient2 by name.",
+   note="Uses the proved refinement lemmas of C03 (DualP/Dual2P). update() rebuilding at order One whatever the current order is mirrored (the property compares with a directly-built market, which is at order One too).",
+   tech="Coq proof (the C09 invariant principle instantiated with 1- and 2-jet groups + state-machine invariant by induction over the history) + seeded history correspondence with shrinking",
+   ref="DESIGN.md §4 C10"),
  "C14": dict(
    text="Coq theorems (Props/C14.v) over the Gallina model of bsplev_single_f64 / bspldnev_single_f64 (every short-circuit, the right-end-point rule with the ORIGINAL order, zero-width guards, index aborts): for EVERY order k >= 1, every admissible knot vector (non-decreasing, k-fold right end knot; weaker than the property's class), every basis index, derivative order and point of the domain — interior knots and the right end point included — the value is the Cox-de Boor piece polynomial of the point's span; non-negativity, support, partition of unity, m >= k => 0, and the returned m-th derivative is the m-th derivative (Coquelicot is_derive_n) of that piece, i.e. the derivative from the right (from the left at the right end point). Tied to spline.rs on every run by a seeded bit-level differential run (orders 1-6, repeated interior knots, zero-width spans, every knot and end point).",
    note="Theorems over R (rounding outside). The one-sided derivative is formalised as the ordinary derivative of the span's piece polynomial, which the code equals on the whole span by C14_value. Axioms: stdlib reals (+ constructive_indefinite_description through the NumR instance only).",
@@ -46,8 +56,8 @@ CLAIMED = {
    tech="Coq proof (structural induction over expression trees, Coquelicot derivatives, refinement from the concrete vars/array representation to value+derivative-per-name) + seeded model-vs-code correspondence",
    ref="DESIGN.md §4 C01"),
  "C02": dict(
-   text="Coq theorems (Props/C02.v) over the Gallina model of Dual2 (half-Hessian storage, symmetrised cross products, every operator variant): for every expression tree and environment the first-order part of the Dual2 evaluation equals the Dual evaluation (From<Dual2> for Dual loses only the Hessian), the stored half-Hessian is symmetric by name, the value and gradient are exact in the differentiable domain, and twice the stored entry for (u,v) is the derivative with respect to v of the first-order AD coefficient for u (which C01 identifies with the true first partial at every point of the domain). Tied to rust/dual by a seeded differential run on Dual2 incl. gradient2 read-back and Dual::from.",
-   note="As C01 (theorems over R; same axioms). The Hessian statement is the pointwise form (derivative of the AD gradient); identifying it with Coquelicot's Derive of Derive needs openness of the domain along coordinates, which is not yet proved and is stated in DESIGN.md as the remaining extension.",
+   text="Coq theorems (Props/C02.v) over the Gallina model of Dual2 (half-Hessian storage, symmetrised cross products, every operator variant): for every expression tree and environment the first-order part of the Dual2 evaluation equals the Dual evaluation (From<Dual2> for Dual loses only the Hessian), the stored half-Hessian is symmetric by name, the value and gradient are exact in the differentiable domain, twice the stored entry for (u,v) is the derivative with respect to v of the first-order AD coefficient for u, and — the domain being open along every coordinate (proved) — it is the derivative with respect to v of Coquelicot's Derive with respect to u of the plain evaluation: the Hessian read back IS the matrix of second partial derivatives. Tied to rust/dual by a seeded differential run on Dual2 incl. gradient2 read-back and Dual::from.",
+   note="As C01 (theorems over R; same axioms). C02_hessian_exact states the mixed second partial as is_derive (w.r.t. v) of Derive (w.r.t. u) of the plain evaluation.",
    tech="Coq proof (abstract gradient/half-Hessian formulas as coded, refinement of the concrete Dual2 arrays to them, induction with chain-rule lemmas) + seeded model-vs-code correspondence",
    ref="DESIGN.md §4 C02"),
  "C08": dict(
